@@ -53,9 +53,14 @@ RowWeight(r) == LET B == BMatrix(subs)  sc == CeilQ(Scale(subs, c0))
 DriftOK(dev) == \A r \in 1..Len(dev) : dev[r] <= DriftTolE12 * RowWeight(r)
 
 QSeq(v) == [i \in 1..Len(v) |-> Norm(v[i])]
+QMat(M) == [r \in 1..Len(M) |-> QSeq(M[r])]
+(* an observation the binding layer could not encode (nan, inf, a wrong type or shape, a      *)
+(* number beyond 32 bit) is recorded with a field bad: it equals no expectation               *)
+IsBad(e) == "bad" \in DOMAIN e
 
 Step(e) ==
-    CASE e.ev = "Subst"      -> AddSubstance([name |-> e.name, comp |-> e.comp]) /\ UNCHANGED forms
+    CASE IsBad(e)            -> FALSE
+      [] e.ev = "Subst"      -> AddSubstance([name |-> e.name, comp |-> e.comp, den |-> e.den]) /\ UNCHANGED forms
       [] e.ev = "Rxn"        -> AddReaction(RxnOf(e)) /\ UNCHANGED forms
       [] e.ev = "Build"      -> Build /\ BuildOutcome(e) /\ BuildIsValueError(e) /\ BuildNamesKey(e) /\ UNCHANGED forms
       [] e.ev = "BuildUnchecked" -> BuildUnchecked /\ ~e.raised /\ UNCHANGED forms
@@ -63,13 +68,13 @@ Step(e) ==
                                   /\ CheckBalanceOK(e) /\ UNCHANGED <<vars, forms>>
       [] e.ev = "Violations" -> /\ stage \in {"built", "dyn"} /\ e.i \in 1..Len(rxns) /\ Len(e.net) = Len(e.keys)
                                 /\ (e.allkeys => e.keys = KeySeq(subs))
-                                /\ \A j \in 1..Len(e.keys) : e.net[j] = Violation(subs, rxns[e.i], e.keys[j])
+                                /\ \A j \in 1..Len(e.keys) : Norm(e.net[j]) = ViolationQ(subs, rxns[e.i], e.keys[j])
                                 /\ UNCHANGED <<vars, forms>>
       [] e.ev = "ChargeViolation" -> /\ stage \in {"built", "dyn"} /\ e.i \in 1..Len(rxns)
-                                     /\ e.v = Violation(subs, rxns[e.i], 0) /\ UNCHANGED <<vars, forms>>
+                                     /\ Norm(e.v) = ViolationQ(subs, rxns[e.i], 0) /\ UNCHANGED <<vars, forms>>
       [] e.ev = "LinDepAt"   -> /\ stage \in {"built", "dyn"} /\ Len(e.u) = NS /\ Len(e.y0) = NS
                                 /\ FormOKAt(subs, e.elim, e.u, e.const, e.y0) /\ UNCHANGED <<vars, forms>>
-      [] e.ev = "BVectors"   -> /\ stage \in {"built", "dyn"} /\ e.keys = KeySeq(subs) /\ e.B = BMatrix(subs)
+      [] e.ev = "BVectors"   -> /\ stage \in {"built", "dyn"} /\ e.keys = KeySeq(subs) /\ QMat(e.B) = BMatrixQ(subs)
                                 /\ UNCHANGED <<vars, forms>>
       [] e.ev = "NetStoich"  -> /\ stage \in {"built", "dyn"} /\ Len(e.N) = Len(rxns) /\ ObservedNetBalanced(e.N)
                                 /\ UNCHANGED <<vars, forms>>
@@ -116,7 +121,8 @@ TNext == TStep \/ TReject
 Clause ==
     IF pos > Len(Traces[tid]) THEN "no-end-event"
     ELSE LET e == Ev IN
-      CASE e.ev = "Build" ->
+      CASE IsBad(e) -> "unobservable:" \o e.ev
+        [] e.ev = "Build" ->
               IF stage # "rxn" THEN "step:Build"
               ELSE IF ~e.raised /\ ~Accept(subs, rxns) THEN "accepted-unbalanced"
               ELSE IF e.raised /\ Accept(subs, rxns) THEN "rejected-balanced"
